@@ -166,7 +166,7 @@ def run(ctx):
         ctx.case(("py-extra", k))
         has_tuple = "(" in repr(getattr(obj, "items", "")) and isinstance(getattr(obj, "items", None), tuple) and bool(obj.items)
         evaluate(ctx, obj, {"value": repr(obj)[:600]}, ["F9a"] if has_tuple else [])
-    for k, obj in enumerate(zoo.instances(ctx.seed + 18, ctx.pick(200, 4000))):
+    for k, obj in enumerate(zoo.instances(ctx.seed + 18, ctx.pick(200, 10**7))):
         ctx.case(("py-zoo", k))
         evaluate(ctx, obj, {"model": type(obj).__name__, "value": repr(obj)[:1200]})
 
